@@ -13,9 +13,9 @@ import (
 	"rscheck/cfgq"
 	"rscheck/core"
 	"rscheck/driver"
-	"rscheck/lin"
 	"rscheck/pat"
 	"rscheck/rules/c07"
+	"rscheck/rules/c07/inl"
 )
 
 const (
@@ -47,7 +47,21 @@ type rx struct {
 	fn      map[string]*core.Fn
 }
 
+// Specs names the anchored functions of C16 for the helper inliner.
+var Specs = []inl.Spec{
+	{Pkg: pkgRun, Roots: []string{exe + ".exec", exe + ".fetcher", exe + ".doFetch", exe + ".writer", exe + ".writeSend", exe + ".receiver", exe + ".getSourceDbList"},
+		Keep:      []string{"Send", "Do", "Flush", "Receive", "ScanKey", "EndNode", "RestoreBigkey", "FilterKey", "FilterDB", "Strings", "Int64s"},
+		KeepTypes: []string{"KeyNode"}, KeepFields: []string{"TargetDB", "KeyExists", "keyChan", "resultChan", "close", "previousDb", "dbList"}},
+	{Pkg: pkgScanner, Roots: []string{"NormalScanner.ScanKey", "NormalScanner.EndNode", "KeyFileScanner.ScanKey", "KeyFileScanner.EndNode"},
+		Keep: []string{"Do", "Scan", "Values", "Text"}, KeepFields: []string{"cursor", "cnt", "ScanKeyNumber"}},
+	{Pkg: pkgCommon, Roots: []string{"RestoreBigkey"}, Exclude: []string{"restoreBigRdbEntry"}, Keep: []string{"Do", "restoreBigRdbEntry"}},
+}
+
 func Run(c *core.Ctx) {
+	c07.Dual(c, Specs, run)
+}
+
+func run(c *core.Ctx) {
 	x := &rx{c: c, fn: map[string]*core.Fn{}}
 	ok := true
 	for _, m := range []string{"exec", "fetcher", "doFetch", "writer", "writeSend", "receiver", "getSourceDbList"} {
@@ -96,7 +110,7 @@ func cmd(info *types.Info, call *ast.CallExpr) (method, command string, recv ast
 	if !ok || len(call.Args) == 0 {
 		return "", "", nil
 	}
-	f := core.CalleeFunc(info, call)
+	f := c07.CalleeF(info, call)
 	if f == nil || f.Pkg() == nil || !strings.HasSuffix(f.Pkg().Path(), "redigo/redis") {
 		return "", "", nil
 	}
@@ -121,7 +135,7 @@ func (x *rx) cmdNode(method, command string) func(ast.Node) bool {
 func (x *rx) callNode(f *types.Func) func(ast.Node) bool {
 	return func(n ast.Node) bool {
 		for _, call := range cfgq.ExecCalls(n) {
-			if core.CalleeFunc(x.info, call) == f {
+			if c07.CalleeF(x.info, call) == f {
 				return true
 			}
 		}
@@ -159,13 +173,14 @@ func (x *rx) rangeOver(m string, pred func(ast.Expr) bool) *ast.RangeStmt {
 	return out
 }
 
-func blockOf(g *cfgq.Graph, kind cfg.BlockKind, s ast.Stmt) *cfg.Block {
-	for _, b := range g.CFG.Blocks {
-		if b.Kind == kind && b.Stmt == s {
-			return b
-		}
-	}
-	return nil
+// chanLoop is the loop in which a stage takes the elements off its input channel: `for e := range ch` or
+// `for { e, ok := <-ch; if !ok { break }; ... }`.
+type chanLoop struct {
+	stmt  ast.Stmt
+	Body  *ast.BlockStmt
+	elem  types.Object
+	okVar types.Object
+	recv  *ast.AssignStmt
 }
 
 func (x *rx) check(rule, key string, pos token.Pos, w []string, detail string) {
@@ -180,58 +195,6 @@ func (x *rx) verdict3(rule, key string, pos token.Pos, ok, recognised bool, deta
 	} else {
 		x.c.Undecidedf(rule, key, pos, "the deciding test is not in a recognised form; cannot establish: %s", detail)
 	}
-}
-
-// eleField: e is <ele>.<name> for the element variable ele of type *KeyNode.
-func (x *rx) eleField(e ast.Expr, ele types.Object, name string) bool {
-	sel, ok := c07.Strip(x.info, e).(*ast.SelectorExpr)
-	return ok && core.IsFieldNamed(x.info, sel, "KeyNode", name) && core.ObjOf(x.info, sel.X) == ele
-}
-
-// intCmp decides what the fact f says about `<lhs> == k`: (true, true) it is established, (false, true) its
-// negation is established, (_, false) nothing. The comparison is read in linear normal form (package lin), so
-// `x == k`, `k == x`, `x+2 == 0`, `!(x != k)`, a case arm over another constant, `x >= 0` (for negative k) ... are
-// all understood; named constants are folded by go/types.
-func intCmp(info *types.Info, f cfgq.Fact, isLHS func(ast.Expr) bool, k int64) (eq, ok bool) {
-	var atom ast.Expr
-	ast.Inspect(f.Expr, func(n ast.Node) bool {
-		if e, isE := n.(ast.Expr); isE && atom == nil && isLHS(e) {
-			atom = e
-		}
-		return atom == nil
-	})
-	if atom == nil {
-		return false, false
-	}
-	cmp, isCmp := lin.CmpOf(info, f.Expr, f.Val)
-	if !isCmp || len(cmp.F.Coef) != 1 {
-		return false, false
-	}
-	a := cmp.F.Coef[lin.Key(info, atom)]
-	if a != 1 && a != -1 {
-		return false, false
-	}
-	c := cmp.F.Const // a*x + c op 0
-	switch cmp.Op {
-	case token.EQL: // x == -c/a
-		return -c*a == k, true
-	case token.NEQ:
-		if -c*a == k {
-			return false, true
-		}
-	case token.LSS, token.LEQ:
-		strict := cmp.Op == token.LSS
-		if a == 1 { // x < -c  (or <=)
-			if k > -c || strict && k == -c {
-				return false, true
-			}
-		} else { // -x + c < 0  <=>  x > c (or >=)
-			if k < c || strict && k == c {
-				return false, true
-			}
-		}
-	}
-	return false, false
 }
 
 func (x *rx) chain() {
@@ -249,12 +212,12 @@ func (x *rx) chain() {
 	}
 	// writer: final flush, then close(resultChan)
 	g = x.g("writer")
-	rs := x.rangeOver("writer", func(e ast.Expr) bool { return x.field(e) == "keyChan" })
+	rs := x.chanLoopOf("writer", "keyChan")
 	if rs == nil {
-		x.c.Undecidedf("R1.final-flush", "writer", x.fn["writer"].Decl.Pos(), "no `range keyChan` in writer")
+		x.c.Undecidedf("R1.final-flush", "writer", x.fn["writer"].Decl.Pos(), "no loop taking the keys off keyChan in writer")
 		return
 	}
-	done := blockOf(g, cfg.KindRangeDone, rs)
+	_, _, done := rs.blocks(g)
 	flush := x.callNode(x.fn["writeSend"].Obj)
 	closeRes := func(n ast.Node) bool { return c07.BuiltinCallOn(x.info, n, "close", x.fieldObj("resultChan")) }
 	w = g.Path(cfgq.Query{From: cfgq.Point{B: done}, Avoid: flush, TargetExit: c07.NormalExit})
@@ -278,7 +241,7 @@ func (x *rx) chain() {
 	x.check("R1.close-last", "writer/resultChan", rs.Pos(), w, "resultChan is closed before the final batch was forwarded: writeSend then sends on a closed channel (panic), or exec is told to finish while keys are still unflushed")
 	// receiver sets the flag after its loop
 	g = x.g("receiver")
-	rr := x.rangeOver("receiver", func(e ast.Expr) bool { return x.field(e) == "resultChan" })
+	rr := x.chanLoopOf("receiver", "resultChan")
 	setClose := func(n ast.Node) bool {
 		as, ok := n.(*ast.AssignStmt)
 		if !ok || len(as.Lhs) != 1 || len(as.Rhs) != 1 || x.field(as.Lhs[0]) != "close" {
@@ -383,7 +346,7 @@ func (x *rx) exec() {
 	for _, m := range []string{"fetcher", "writer", "receiver"} {
 		isGo := func(n ast.Node) bool {
 			gs, ok := n.(*ast.GoStmt)
-			return ok && core.CalleeFunc(x.info, gs.Call) == x.fn[m].Obj
+			return ok && c07.CalleeF(x.info, gs.Call) == x.fn[m].Obj
 		}
 		ok, w := g.Dominated(condPt, isGo)
 		n := len(g.Points(isGo))
@@ -405,13 +368,12 @@ func (x *rx) exec() {
 func (x *rx) writer() {
 	fn := x.fn["writer"]
 	g := x.g("writer")
-	rs := x.rangeOver("writer", func(e ast.Expr) bool { return x.field(e) == "keyChan" })
+	rs := x.chanLoopOf("writer", "keyChan")
 	if rs == nil {
 		return
 	}
-	ele := core.ObjOf(x.info, rs.Key)
-	head, body := c07.RangeBlocks(g, rs)
-	start := cfgq.Point{B: body}
+	ele := rs.elem
+	head, start, _ := rs.blocks(g)
 	top := &wscope{g: g, ele: ele, root: rs.Body}
 	toHead := func(b *cfg.Block, s int) bool { return b.Succs[s] == head }
 	hasCmd := func(m, cm string) func(*wscope, ast.Node) bool {
@@ -431,10 +393,10 @@ func (x *rx) writer() {
 	var batch types.Object
 	isAppend := func(n ast.Node) bool {
 		b := pat.Stmt("_b = append(_b, _e)").Match(x.info, n, nil)
-		if b == nil || core.ObjOf(x.info, b["_e"].(ast.Expr)) != ele {
+		if b == nil || c07.Obj(x.info, b["_e"].(ast.Expr)) != ele {
 			return false
 		}
-		batch = core.ObjOf(x.info, b["_b"].(ast.Expr))
+		batch = c07.Obj(x.info, b["_b"].(ast.Expr))
 		return true
 	}
 	inLoop := func(pred func(ast.Node) bool) []cfgq.Point {
@@ -472,7 +434,7 @@ func (x *rx) writer() {
 			}
 			conns = append(conns, x.field(recv))
 			e := st.sc.ele
-			okArgs := len(call.Args) >= 4 && x.eleField(call.Args[1], e, "key") && x.eleField(call.Args[2], e, "pttl") && x.eleField(call.Args[3], e, "value")
+			okArgs := len(call.Args) >= 4 && x.eleFieldAt(st.sc.g, st.p, call.Args[1], e, "key") && x.eleFieldAt(st.sc.g, st.p, call.Args[2], e, "pttl") && x.eleFieldAt(st.sc.g, st.p, call.Args[3], e, "value")
 			replace := false
 			if len(call.Args) == 5 {
 				s, _ := core.StringConst(x.info, call.Args[4])
@@ -510,13 +472,23 @@ func (x *rx) writer() {
 		}
 	}
 	// final flush is given the batch
-	for _, call := range x.calls(fn.Decl.Body, func(call *ast.CallExpr) bool { return core.CalleeFunc(x.info, call) == x.fn["writeSend"].Obj }) {
+	for _, call := range x.calls(fn.Decl.Body, func(call *ast.CallExpr) bool { return c07.CalleeF(x.info, call) == x.fn["writeSend"].Obj }) {
 		if !c07.Within(call, rs.Body) {
-			x.c.Check("R2.batch", "writer/final-flush-arg", call.Pos(), len(call.Args) > 0 && core.ObjOf(x.info, call.Args[0]) == batch, "the flush after the loop must be given the batch that the loop filled, otherwise the last partial batch is neither flushed nor confirmed")
-		} else if as, ok := core.PathTo(rs.Body, call)[len(core.PathTo(rs.Body, call))-2].(*ast.AssignStmt); !ok || len(as.Lhs) != 1 || core.ObjOf(x.info, as.Lhs[0]) != batch || core.ObjOf(x.info, call.Args[0]) != batch {
-			x.c.Failf("R2.batch", "writer/flush-resets-batch", call.Pos(), "inside the loop the batch must be replaced by writeSend's fresh slice (`batch = writeSend(batch, ...)`): otherwise already confirmed keys are forwarded to receiver again, which then waits for replies that never come")
+			x.c.Check("R2.batch", "writer/final-flush-arg", call.Pos(), len(call.Args) > 0 && c07.Obj(x.info, call.Args[0]) == batch, "the flush after the loop must be given the batch that the loop filled, otherwise the last partial batch is neither flushed nor confirmed")
 		} else {
-			x.c.Okf("R2.batch", "writer/flush-resets-batch", call.Pos(), "batch = writeSend(batch, ...)")
+			// inside the loop the fresh slice that writeSend returns must replace the batch
+			as, _ := core.PathTo(rs.Body, call)[len(core.PathTo(rs.Body, call))-2].(*ast.AssignStmt)
+			okReset := false
+			if as != nil && len(as.Rhs) == 1 && len(call.Args) > 0 && c07.Obj(x.info, call.Args[0]) == batch {
+				if sig, isSig := x.fn["writeSend"].Obj.Type().(*types.Signature); isSig && sig.Results().Len() == len(as.Lhs) {
+					for i, l := range as.Lhs {
+						if _, isSlice := sig.Results().At(i).Type().Underlying().(*types.Slice); isSlice && c07.Obj(x.info, l) == batch {
+							okReset = true
+						}
+					}
+				}
+			}
+			x.c.Check("R2.batch", "writer/flush-resets-batch", call.Pos(), okReset, "inside the loop the batch must be replaced by writeSend's fresh slice (`batch = writeSend(batch, ...)`): otherwise already confirmed keys are forwarded to receiver again, which then waits for replies that never come")
 		}
 	}
 	// big keys
@@ -528,11 +500,11 @@ func (x *rx) writer() {
 	var bigArg *ast.CallExpr
 	for _, st := range x.sites(top, bigP.node, 0) {
 		for _, call := range cfgq.ExecCalls(st.p.Node()) {
-			if core.CalleeFunc(x.info, call) != bigF.Obj || len(call.Args) != 6 {
+			if c07.CalleeF(x.info, call) != bigF.Obj || len(call.Args) != 6 {
 				continue
 			}
 			e := st.sc.ele
-			okArgs := x.eleField(call.Args[1], e, "key") && x.eleField(call.Args[2], e, "value") && x.eleField(call.Args[3], e, "pttl") && x.eleField(call.Args[4], e, "db")
+			okArgs := x.eleFieldAt(st.sc.g, st.p, call.Args[1], e, "key") && x.eleFieldAt(st.sc.g, st.p, call.Args[2], e, "value") && x.eleFieldAt(st.sc.g, st.p, call.Args[3], e, "pttl") && x.eleFieldAt(st.sc.g, st.p, call.Args[4], e, "db")
 			if !okArgs && x.viaLocal(call.Args[1:5]) {
 				x.c.Undecidedf("R2.bigkey", "writer/args", call.Pos(), "an argument of `%s` is carried in a local variable: not followed", x.c.Src(call))
 			} else {
@@ -621,7 +593,7 @@ func (x *rx) writer() {
 	core.Inspect(rs.Body, func(n ast.Node) bool {
 		if be, ok := n.(*ast.BinaryExpr); ok && (be.Op == token.NEQ || be.Op == token.EQL) {
 			for _, pr := range [][2]ast.Expr{{be.X, be.Y}, {be.Y, be.X}} {
-				if v, ok := core.ObjOf(x.info, c07.Strip(x.info, pr[0])).(*types.Var); ok && !v.IsField() && dbF(pr[1]) && fn.Decl.Body.Pos() <= v.Pos() && v.Pos() < fn.Decl.Body.End() {
+				if v, ok := c07.Obj(x.info, c07.Strip(x.info, pr[0])).(*types.Var); ok && !v.IsField() && dbF(pr[1]) && fn.Decl.Body.Pos() <= v.Pos() && v.Pos() < fn.Decl.Body.End() {
 					tracker = v
 				}
 			}
@@ -632,11 +604,11 @@ func (x *rx) writer() {
 		x.c.Undecidedf("R3.select", "writer", rs.Pos(), "no local tracker compared with ele.db")
 		return
 	}
-	x.selectRules("writer", g, start, head, tracker, func(e ast.Expr) bool { return core.ObjOf(x.info, c07.Strip(x.info, e)) == tracker }, dbF, isSelect, restores, rs)
+	x.selectRules("writer", g, start, head, tracker, func(e ast.Expr) bool { return c07.Obj(x.info, c07.Strip(x.info, e)) == tracker }, dbF, isSelect, restores, rs.Body)
 	if bigArg != nil {
 		u, ok := ast.Unparen(bigArg.Args[5]).(*ast.UnaryExpr)
-		own := ok && u.Op == token.AND && core.ObjOf(x.info, u.X) != tracker && core.ObjOf(x.info, u.X) != nil
-		okDecl := own && !(rs.Body.Pos() <= core.ObjOf(x.info, u.X).Pos() && core.ObjOf(x.info, u.X).Pos() < rs.Body.End())
+		own := ok && u.Op == token.AND && c07.Obj(x.info, u.X) != tracker && c07.Obj(x.info, u.X) != nil
+		okDecl := own && !(rs.Body.Pos() <= c07.Obj(x.info, u.X).Pos() && c07.Obj(x.info, u.X).Pos() < rs.Body.End())
 		x.c.Check("R3.select", "writer/bigkey-own-tracker", bigArg.Pos(), okDecl, "the big-key connection needs its own selected-db variable, living across iterations: sharing the pipelined connection's tracker makes later normal keys skip their SELECT and land in the wrong database")
 	}
 }
@@ -648,23 +620,37 @@ func (x *rx) writeSend() {
 	if ps := fn.Decl.Type.Params.List; len(ps) > 0 && len(ps[0].Names) > 0 {
 		batch = x.info.Defs[ps[0].Names[0]]
 	}
-	rs := x.rangeOver("writeSend", func(e ast.Expr) bool { return batch != nil && core.ObjOf(x.info, e) == batch })
-	if rs == nil {
-		x.c.Undecidedf("R2.forward", "writeSend", fn.Decl.Pos(), "no range over the batch parameter")
+	// the loop that visits the batch: range or index loop
+	var it *iter
+	core.Inspect(fn.Decl.Body, func(n ast.Node) bool {
+		if s, ok := n.(*ast.SendStmt); ok && x.field(s.Chan) == "resultChan" && it == nil {
+			if cand := x.iterOf(fn.Decl.Body, s); cand != nil && batch != nil && c07.Obj(x.info, cand.slice) == batch {
+				it = cand
+			}
+		}
+		return true
+	})
+	if it == nil {
+		x.c.Undecidedf("R2.forward", "writeSend", fn.Decl.Pos(), "no loop over the batch parameter that sends to resultChan")
 		return
 	}
-	empty := func(b *cfg.Block, s int) bool {
+	isLen := func(e ast.Expr) bool {
+		call, isC := c07.Through(x.info, e).(*ast.CallExpr)
+		return isC && len(call.Args) == 1 && c07.Obj(x.info, call.Args[0]) == batch && c07.Obj(x.info, call.Fun) != nil && c07.Obj(x.info, call.Fun).Name() == "len"
+	}
+	empty := func(b *cfg.Block, s int) bool { // the edge establishes len(batch) == 0 (a length is never negative: < 1 and <= 0 say the same)
 		return c07.EdgeFact(g, b, s, func(f cfgq.Fact) bool {
-			eq, ok := intCmp(x.info, f, func(e ast.Expr) bool {
-				call, isC := ast.Unparen(e).(*ast.CallExpr)
-				return isC && len(call.Args) == 1 && core.ObjOf(x.info, call.Args[0]) == batch && core.ObjOf(x.info, call.Fun) != nil && core.ObjOf(x.info, call.Fun).Name() == "len"
-			}, 0)
-			return ok && eq
+			if eq, ok := intCmp(x.info, f, isLen, 0); ok && eq {
+				return true
+			}
+			neg, ok := intCmp(x.info, f, isLen, 1) // len != 1 established by an ordering: len < 1
+			_, okAny := intCmp(x.info, f, isLen, 1000000)
+			return ok && !neg && okAny // below 1 and below any large value: an upper bound < 1
 		})
 	}
 	isFlush := func(n ast.Node) bool {
 		for _, call := range cfgq.ExecCalls(n) {
-			if f := core.CalleeFunc(x.info, call); f != nil && f.Name() == "Flush" && strings.HasSuffix(f.Pkg().Path(), "redigo/redis") {
+			if f := c07.CalleeF(x.info, call); f != nil && f.Name() == "Flush" && strings.HasSuffix(f.Pkg().Path(), "redigo/redis") {
 				return true
 			}
 		}
@@ -672,39 +658,47 @@ func (x *rx) writeSend() {
 	}
 	w := g.Path(cfgq.Query{From: g.Entry(), Avoid: isFlush, AvoidEdge: empty, TargetExit: c07.NormalExit})
 	x.check("R2.forward", "writeSend/flush", fn.Decl.Pos(), w, "a non-empty batch must be flushed to the target: otherwise the buffered RESTORE commands of this batch are never written and receiver waits forever for their replies")
-	w = g.Path(cfgq.Query{From: g.Entry(), Avoid: c07.IsNode(rs.X), AvoidEdge: empty, TargetExit: c07.NormalExit})
-	val := core.ObjOf(x.info, rs.Value)
-	head, body := c07.RangeBlocks(g, rs)
+	head, body := c07.RangeBlocks(g, it.stmt)
+	entersLoop := func(n ast.Node) bool { // a node of the loop header: the loop is executed (possibly zero times over an empty batch)
+		return n.Pos() >= it.stmt.Pos() && n.End() <= it.stmt.End()
+	}
+	w = g.Path(cfgq.Query{From: g.Entry(), Avoid: entersLoop, AvoidEdge: empty, TargetExit: c07.NormalExit})
 	isSend := func(n ast.Node) bool {
 		s, ok := n.(*ast.SendStmt)
-		return ok && x.field(s.Chan) == "resultChan" && val != nil && core.ObjOf(x.info, s.Value) == val
+		return ok && x.field(s.Chan) == "resultChan" && x.elem(it, s.Value)
 	}
-	if w == nil && c07.ReachBlock(g, cfgq.Point{B: body}, false, isSend, head) {
+	post := head
+	for _, bl := range g.CFG.Blocks {
+		if bl.Kind == cfg.KindForPost && bl.Stmt == it.stmt {
+			post = bl
+		}
+	}
+	if w == nil && c07.ReachBlock(g, cfgq.Point{B: body}, false, isSend, post) {
 		w = []string{"an iteration over the batch does not send the element to resultChan"}
 	}
-	x.check("R2.forward", "writeSend/every-element", rs.Pos(), w, "every element of a flushed batch must be forwarded to resultChan exactly once: an element not forwarded is never confirmed, so exec can finish while its RESTORE is still in flight")
+	x.check("R2.forward", "writeSend/every-element", it.stmt.Pos(), w, "every element of a flushed batch must be forwarded to resultChan exactly once: an element not forwarded is never confirmed, so exec can finish while its RESTORE is still in flight")
 	for _, p := range g.Points(isSend) {
-		w := g.Path(cfgq.Query{From: p, After: true, Target: isSend, AvoidEdge: func(b *cfg.Block, s int) bool { return b.Succs[s] == head }})
+		w := g.Path(cfgq.Query{From: p, After: true, Target: isSend, AvoidEdge: func(b *cfg.Block, s int) bool { return b.Succs[s] == post || b.Succs[s] == head }})
 		x.check("R2.forward", "writeSend/once", p.Node().Pos(), w, "an element is forwarded twice: receiver waits for a second reply that never comes and the run never terminates")
 	}
 }
 
 func (x *rx) receiver() {
 	g := x.g("receiver")
-	rs := x.rangeOver("receiver", func(e ast.Expr) bool { return x.field(e) == "resultChan" })
+	rs := x.chanLoopOf("receiver", "resultChan")
 	if rs == nil {
 		return
 	}
-	head, body := c07.RangeBlocks(g, rs)
+	head, start, _ := rs.blocks(g)
 	isRecv := func(n ast.Node) bool {
 		for _, call := range cfgq.ExecCalls(n) {
-			if f := core.CalleeFunc(x.info, call); f != nil && f.Name() == "Receive" && strings.HasSuffix(f.Pkg().Path(), "redigo/redis") {
+			if f := c07.CalleeF(x.info, call); f != nil && f.Name() == "Receive" && strings.HasSuffix(f.Pkg().Path(), "redigo/redis") {
 				return true
 			}
 		}
 		return false
 	}
-	x.c.Check("R2.receive", "receiver/at-least-one", rs.Pos(), !c07.ReachBlock(g, cfgq.Point{B: body}, false, isRecv, head),
+	x.c.Check("R2.receive", "receiver/at-least-one", rs.Pos(), !c07.ReachBlock2(g, start, isRecv, rs.closed(x, g), head),
 		"every element of resultChan stands for one pipelined RESTORE whose reply must be read: skipping a Receive lets exec finish while commands are in flight and attributes later replies to the wrong key")
 	var w []string
 	for _, p := range g.Points(isRecv) {
